@@ -261,9 +261,69 @@ Proof.
   - intros H x Hx. inversion Hx as [x0 y z He Hp Ha Hb]; subst. exact (H _ _ He Hp).
 Qed.
 
+(* ---- paths of a given length; in an acyclic graph they are bounded by the vertex count ---- *)
+Inductive pathn (edges : list (A * A)) : nat -> A -> A -> Prop :=
+| pathn_O a : pathn edges 0 a a
+| pathn_S n a b c : In (a, b) edges -> pathn edges n b c -> pathn edges (S n) a c.
+
+Lemma pathn_path edges n a b : pathn edges n a b -> path edges a b.
+Proof.
+  intros H. induction H as [a|n a b c He H IH]; [apply path_refl | eapply path_step; eassumption].
+Qed.
+
+Inductive walk (edges : list (A * A)) : list A -> Prop :=
+| walk_one a : walk edges [a]
+| walk_cons a b l : In (a, b) edges -> walk edges (b :: l) -> walk edges (a :: b :: l).
+
+Lemma pathn_walk edges n a b : pathn edges n a b ->
+  exists vs, walk edges (a :: vs) /\ length vs = n.
+Proof.
+  intros H. induction H as [a|n a b c He H [vs [Hw Hl]]].
+  - exists []. split; [constructor | reflexivity].
+  - exists (b :: vs). split; [constructor; assumption | cbn; rewrite Hl; reflexivity].
+Qed.
+
+Lemma walk_path edges a l : walk edges (a :: l) -> forall x, In x (a :: l) -> path edges a x.
+Proof.
+  revert a. induction l as [|b l IH]; intros a Hw x Hx.
+  - destruct Hx as [<-|[]]. apply path_refl.
+  - inversion Hw as [|a' b' l' He Hw']; subst. destruct Hx as [<-|Hx]; [apply path_refl|].
+    eapply path_step; [exact He | apply IH; assumption].
+Qed.
+
+Lemma walk_nodup edges l : acyclic edges -> walk edges l -> NoDup l.
+Proof.
+  intros Hac Hw. induction Hw as [a|a b l He Hw IH]; [constructor; [intros []|constructor]|].
+  constructor; [|exact IH]. intros Hin.
+  apply (Hac a). econstructor; [exact He|]. apply (walk_path edges b l Hw a Hin).
+Qed.
+
+Lemma walk_vertices edges (V : list A) l :
+  (forall a b, In (a, b) edges -> In a V /\ In b V) -> walk edges l -> (2 <= length l)%nat -> incl l V.
+Proof.
+  intros HV Hw. induction Hw as [a|a b l He Hw IH]; intros Hlen; [cbn in Hlen; lia|].
+  intros x [<-|Hx]; [apply (HV _ _ He)|].
+  destruct l as [|c l].
+  - destruct Hx as [<-|[]]. apply (HV _ _ He).
+  - apply IH; [cbn; lia | exact Hx].
+Qed.
+
+Lemma acyclic_pathn_bound edges (V : list A) n a b :
+  acyclic edges -> (forall a b, In (a, b) edges -> In a V /\ In b V) ->
+  pathn edges n a b -> (n = 0 \/ S n <= length V)%nat.
+Proof.
+  intros Hac HV Hp. destruct n as [|n]; [left; reflexivity | right].
+  apply pathn_walk in Hp. destruct Hp as [vs [Hw Hl]].
+  pose proof (walk_nodup _ _ Hac Hw) as Hnd.
+  assert (Hincl : incl (a :: vs) V). { apply (walk_vertices edges V); [exact HV | exact Hw | cbn; lia]. }
+  pose proof (NoDup_incl_length Hnd Hincl) as Hlen. cbn in Hlen. lia.
+Qed.
+
 End Closure.
 
 Arguments path {A} edges _ _.
 Arguments path1 {A} edges _ _.
+Arguments pathn {A} edges _ _ _.
+Arguments walk {A} edges _.
 Arguments acyclic {A} edges.
 Arguments closed {A} eqb edges R.
